@@ -34,7 +34,7 @@ RULE = ("ipcp/lcp/v6: ProcessConfReq called directly; every option list of lengt
         "Non-trivial: at least "
         "one option classified (direct), a packet emitted (fsm), IPCP reached Opened (sess). Distinct: by case text.")
 TRUSTED = ["bytes are modelled as N; the harness feeds 0..255 only",
-           "the random IPv6CP Nak suggestion is projected to 'an 8-byte identifier different from the local one'",
+           "the random IPv6CP Nak suggestion is projected to 'an 8-byte identifier, non-zero and different from the local one'",
            "net.ParseIP / net.IP.String round trip (AAA attribute string <-> 16-byte address) is not modelled",
            "FSM states are forced by writing FSM.state in the fsm cases (the automaton itself is property C05)"]
 ASSUMPTIONS = ["the allocator registry enters the session model as an oracle (allocation result, reservation verdict); "
@@ -307,8 +307,13 @@ def gen_cases(rng, tier, budget):
         if k == 0:
             pa, d1, d2, _ = rng.choice(IPCP_CFGS)
             os = [rng.choice(IPCP_ALPHA[:-1]) for _ in range(rng.choice([0, 1, 1, 2, 3, 6]))]
-            if rng.random() < 0.5:
+            r2 = rng.random()
+            if r2 < 0.3:
                 os = [o for o in os if o in (IPCP_ALPHA[0], IPCP_ALPHA[12], IPCP_ALPHA[18])] or [IPCP_ALPHA[0]]
+            elif r2 < 0.6:
+                # nothing to reject: the packet is a Nak (wrong address / 0.0.0.0 / DNS 0.0.0.0) or an Ack
+                os = [rng.choice([IPCP_ALPHA[1], IPCP_ALPHA[2], IPCP_ALPHA[3], IPCP_ALPHA[5], IPCP_ALPHA[11],
+                                  IPCP_ALPHA[17], IPCP_ALPHA[0], IPCP_ALPHA[12]]) for _ in range(rng.choice([1, 2, 3]))]
             head = "fsm i %s %s %s" % (pa, d1, d2)
         elif k == 1:
             m = rng.choice(LCP_MAGICS)
@@ -355,6 +360,9 @@ def gen_cases(rng, tier, budget):
                 if na != "none" and na not in bad_aaas:
                     assigned = na[-8:]
                     reqs = reqs + [[opt(3, assigned)], [opt(3, assigned)], [opt(3, assigned), opt(129, "08080808")]]
+            elif r < 0.05:
+                evs.append(rng.choice(["t%d" % rng.randrange(256), "t7", "Sa" + wire([opt(3, "06060606")]),
+                                       "Sn" + wire([opt(129, "01010101")]), "Sj" + wire([opt(129, "08080808")]), "o"]))
             elif r < 0.3:
                 evs.append("k")
             elif r < 0.42:
